@@ -844,7 +844,7 @@ impl Prop for C20 {
     }
 
     fn gen(&self, tier: Tier, rng: &mut Rng) -> Vec<Case> {
-        let scale = if tier == Tier::Quick { 1 } else { 30 };
+        let scale = if tier == Tier::Quick { 2 } else { 30 };
         let mut out = vec![];
         let anm_flavors = [(AnmFlavor::Valid, 10), (AnmFlavor::Wrapping, 2), (AnmFlavor::DupSameValue, 3), (AnmFlavor::DupTwoValues, 2), (AnmFlavor::CrossKind, 1), (AnmFlavor::Unknown, 2),
             (AnmFlavor::DupScript, 1), (AnmFlavor::DupSpriteInEntry, 1), (AnmFlavor::Cycle, 1), (AnmFlavor::AmbiguousEnum, 1), (AnmFlavor::Orphan, 1)];
